@@ -511,7 +511,171 @@ def rule_e(ctx: Ctx) -> None:
     ctx.min_instances("table_path_normalisations", n, 1)
 
 
-RULES = [rule_a, rule_b, rule_c, rule_d, rule_e]
+def rule_f(ctx: Ctx) -> None:
+    ctx.rule("C18.f", "a flag left out of a memo key only chooses between raising and returning None: every parameter listed in KEY_EXCEPTIONS as 'affects only the failure "
+                      "outcome' is, along the whole memoised computation, either handed on unchanged to a callee (checked in turn) or is the whole test of an `if flag:` whose body "
+                      "ends in raise and whose fall-through returns None at once — if the flag being False could lead to a value, that value is cached and later served to callers "
+                      "for whom the lookup must raise")
+    methods = _methods(ctx)
+    mod = ctx.repo.module("sqlglot.schema")
+    mod_funcs = {n.name: n for n in mod.tree.body if isinstance(n, ast.FunctionDef)}
+    classes = _classes(ctx)
+    n_sites = 0
+    seen: set[tuple[int, str]] = set()
+
+    def params_of(fn: ast.FunctionDef, skip_self: bool) -> list[str]:
+        names = [a.arg for a in fn.args.posonlyargs + fn.args.args]
+        if skip_self and names and names[0] in ("self", "cls"):
+            names = names[1:]
+        return names
+
+    def callee_param(call: ast.Call, arg_node: ast.AST, fn: ast.FunctionDef, skip_self: bool) -> str | None:
+        for k in call.keywords:
+            if k.value is arg_node:
+                return k.arg if k.arg in {a.arg for a in fn.args.args + fn.args.kwonlyargs + fn.args.posonlyargs} else None
+        names = params_of(fn, skip_self)
+        for i, a in enumerate(call.args):
+            if a is arg_node:
+                return names[i] if i < len(names) and not fn.args.vararg else (names[i] if i < len(names) else None)
+        return None
+
+    def resolve(call: ast.Call, cls: Cls | None) -> list[tuple[Cls | None, ast.FunctionDef, bool]]:
+        f = call.func
+        if isinstance(f, ast.Attribute) and isinstance(f.value, ast.Name) and f.value.id == "self":
+            return [(c, md, True) for c, md in methods.get(f.attr, [])[:1]]
+        if isinstance(f, ast.Attribute) and isinstance(f.value, ast.Call) and norm(f.value.func) == "super" and cls is not None:
+            order = [c for c in classes]
+            later = order[order.index(cls) + 1:] if cls in order else []
+            for c in later:
+                md = c.methods().get(f.attr)
+                if md is not None:
+                    return [(c, md, True)]
+            return []
+        if isinstance(f, ast.Name) and f.id in mod_funcs:
+            return [(None, mod_funcs[f.id], False)]
+        return []
+
+    def check(cls: Cls | None, fn: ast.FunctionDef, flag: str, origin: str) -> None:
+        nonlocal n_sites
+        if (id(fn), flag) in seen:
+            return
+        seen.add((id(fn), flag))
+        where = f"{cls.key}.{fn.name}" if cls is not None else f"sqlglot.schema:{fn.name}"
+        parents: dict[int, ast.AST] = {}
+        for x in ast.walk(fn):
+            for ch in ast.iter_child_nodes(x):
+                parents[id(ch)] = x
+        for x in walk_no_nested(fn):
+            if not (isinstance(x, ast.Name) and x.id == flag and isinstance(x.ctx, ast.Load)):
+                continue
+            n_sites += 1
+            par = parents.get(id(x))
+            inst = f"{where}|{flag}|{norm(mod.enclosing_stmt(x) or x, 70)}"
+            # (a) handed on unchanged
+            call = par if isinstance(par, ast.Call) else (parents.get(id(par)) if isinstance(par, ast.keyword) else None)
+            if isinstance(call, ast.Call) and (x in call.args or any(k.value is x for k in call.keywords)):
+                targets = resolve(call, cls)
+                if not targets:
+                    ctx.fail(mod, x, where, call, f"`{flag}` (left out of the memo key of {origin} as a failure-only flag) is handed to `{norm(call.func)}`, which this rule cannot resolve "
+                                                  f"inside sqlglot/schema.py: what the flag decides there is unknown")
+                    continue
+                ok = True
+                for c2, fn2, skip in targets:
+                    p2 = callee_param(call, x, fn2, skip)
+                    if p2 is None:
+                        ok = False
+                        ctx.fail(mod, x, where, call, f"`{flag}` is handed to `{norm(call.func)}` in a position this rule cannot map to a parameter")
+                        continue
+                    check(c2, fn2, p2, origin)
+                if ok:
+                    ctx.ok(inst, {"in": where, "flag": flag, "handed_to": norm(call.func)})
+                continue
+            # (b) whole test of an `if flag:` that raises, and whose fall-through returns None at once
+            if isinstance(par, ast.If) and par.test is x:
+                body_raises = bool(par.body) and isinstance(par.body[-1], ast.Raise)
+                blk = parents.get(id(par))
+                follow: ast.stmt | None = None
+                if par.orelse:
+                    follow = par.orelse[0]
+                else:
+                    for fld in ("body", "orelse", "finalbody"):
+                        seq = getattr(blk, fld, None)
+                        if isinstance(seq, list) and par in seq:
+                            i = seq.index(par)
+                            follow = seq[i + 1] if i + 1 < len(seq) else None
+                returns_none = isinstance(follow, ast.Return) and (follow.value is None or (isinstance(follow.value, ast.Constant) and follow.value.value is None))
+                if body_raises and returns_none:
+                    ctx.ok(inst, {"in": where, "flag": flag, "form": "if flag: raise ...; return None"})
+                else:
+                    ctx.fail(mod, x, where, par, f"`if {flag}:` in the computation memoised by {origin}: " +
+                             ("its body does not end in raise" if not body_raises else "when the flag is False execution does not return None at once but goes on to compute a value") +
+                             f" — `{flag}` is not part of the memo key, so what is computed with {flag}=False is cached and served to callers that asked for an error")
+                continue
+            ctx.fail(mod, x, where, mod.enclosing_stmt(x) or x,
+                     f"`{flag}` (left out of the memo key of {origin} as a failure-only flag) is used in `{norm(mod.enclosing_stmt(x) or x, 80)}`: it is neither handed on unchanged nor the whole "
+                     f"test of an `if {flag}: raise ...` followed by `return None`, so the flag may influence a value that the memo then serves regardless of the flag")
+
+    n_flags = 0
+    for (fname, flag), reason in KEY_EXCEPTIONS.items():
+        if "failure outcome" not in reason:
+            continue
+        n_flags += 1
+        for c, md in methods.get(fname, []):
+            if flag in {a.arg for a in md.args.args + md.args.kwonlyargs}:
+                check(c, md, flag, f"{fname}()")
+    ctx.count("failure_only_flags", n_flags)
+    ctx.count("flag_use_sites", n_sites)
+    ctx.min_instances("flag_use_sites", n_sites, 6)
+
+
+TEXT_OF_NODE = {"name", "alias", "alias_or_name", "output_name"}
+
+
+def rule_g(ctx: Ctx) -> None:
+    ctx.rule("C18.g", "lookups normalise the identifier, not its bare text: _normalize_name decides on the identifier's `quoted` flag (KEY_PROJECTIONS), so no caller in "
+                      "sqlglot/schema.py reduces an expression-typed argument to its text (.name / .alias_or_name / .text()) before handing it to _normalize_name / "
+                      "normalize_name — a quoted, case-sensitive name would be folded like an unquoted one by that lookup only")
+    n = 0
+    for c in _classes(ctx):
+        for name, md in c.methods().items():
+            ann = {a.arg: norm(a.annotation) for a in md.args.args + md.args.kwonlyargs if a.annotation is not None}
+            expr_params = {a for a, t_ in ann.items() if "exp." in t_}
+            local_src: dict[str, ast.AST] = {}
+            for x in walk_no_nested(md):
+                if isinstance(x, ast.Assign) and len(x.targets) == 1 and isinstance(x.targets[0], ast.Name):
+                    local_src.setdefault(x.targets[0].id, x.value)
+            for x in walk_no_nested(md):
+                if not (isinstance(x, ast.Call) and (call_name(x) or "").split(".")[-1] in ("_normalize_name", "normalize_name") and x.args):
+                    continue
+                n += 1
+                arg = x.args[0]
+                if isinstance(arg, ast.Name) and arg.id in local_src:
+                    arg = local_src[arg.id]
+                alts = [arg]
+                if isinstance(arg, ast.IfExp):
+                    alts = [arg.body, arg.orelse]
+                bad = None
+                for a in alts:
+                    base = None
+                    if isinstance(a, ast.Attribute) and a.attr in TEXT_OF_NODE:
+                        base = a.value
+                    elif isinstance(a, ast.Call) and isinstance(a.func, ast.Attribute) and a.func.attr in ("text", "sql"):
+                        base = a.func.value
+                    while isinstance(base, ast.Attribute):
+                        base = base.value
+                    if isinstance(base, ast.Name) and base.id in expr_params:
+                        bad = a
+                where = f"{c.key}.{name}"
+                if bad is not None:
+                    ctx.fail(c.module, x, where, x, f"`{norm(bad)}` hands the bare text of an expression-typed argument to `{norm(x.func)}`: the identifier's `quoted` flag is lost, so "
+                                                   f"this lookup folds a quoted, case-sensitive name although registration and the sibling lookups keep it")
+                else:
+                    ctx.ok(f"{where}|{norm(x, 60)}", None)
+    ctx.count("normalisation_call_sites", n)
+    ctx.min_instances("normalisation_call_sites", n, 7)
+
+
+RULES = [rule_a, rule_b, rule_c, rule_d, rule_e, rule_f, rule_g]
 EXPLANATION = (
     "Cache-coherence analysis of MappingSchema computed from the source: dict memos are discovered by pattern (get/in + "
     "item store on a field initialised in __init__), the fields each fill function reads are collected transitively "
